@@ -64,11 +64,14 @@ def generate(seed, tier):
     for _ in range(r.randint(0, 3)):
         ops.append({'t': round(r.uniform(0.3, T), 3), 'op': 'kerr', 'node': 'B', 'nth': r.randint(1, 6),
                     'errno': r.choice(['ENOMEM', 'EINVAL', 'EEXIST', 'ESRCH', 'ENOBUFS'])})
-    # liveness probes in the quiet tail: P's kernel keeps seeing traffic for entry 0
+    # liveness in the quiet tail: P is restarted (fresh incarnation, kernel flushed by its start-up) and its kernel
+    # keeps seeing traffic for entry 0, so D has to serve a brand-new negotiation after the hostile input stopped
     pk = next(o_ for o_ in ops if o_['op'] == 'packet')
-    tt = T + 1.0
-    while tt < T + QUIET - 25:
-        ops.append({'t': round(tt, 3), 'op': 'packet', 'node': 'A', 'flow': pk['flow'], 'probe': True})
+    ops.append({'t': round(T + 0.2, 3), 'op': 'crash', 'node': 'A', 'k': 0})
+    ops.append({'t': round(T + 0.7, 3), 'op': 'restart', 'node': 'A'})
+    tt = T + 1.5
+    while tt < T + QUIET - 2:
+        ops.append({'t': round(tt, 3), 'op': 'call', 'name': 'probe', 'flow': pk['flow']})
         tt += PROBE_EVERY
     ops.sort(key=lambda x: x['t'])
     sc['probe_flow'] = pk['flow']
@@ -138,7 +141,12 @@ def _handlers(ctx):
                   'proto': 50, 'saddr_raw': _addr_raw(w.scenario['meta']['a_addr']), 'lft': pol['lft'], 'add_time': 0,
                   'reqid': 0, 'family': pol['sel']['family'], 'mode': 0, 'replay_window': 0, 'flags': 0}
             kern.raw_event(enc_expire(sa, r.random() < 0.5), kind)
-    return {'hostile': do_hostile, 'kodd': do_kodd}
+    def do_probe(w, op):
+        ok, why = data_plane_probe(w, 'A', 'B', op['flow'])
+        ctx.setdefault('probes', []).append((round(w.now, 2), ok, why))
+        if not ok:
+            w.packet('A', op['flow'])
+    return {'hostile': do_hostile, 'kodd': do_kodd, 'probe': do_probe}
 
 
 def _execute(scenario, with_hostile=True):
@@ -170,8 +178,11 @@ def _execute(scenario, with_hostile=True):
         w.monitors.append(Zombie())
 
     def at_end(w, ctx):
-        ok, why = data_plane_probe(w, 'A', 'B', sc['probe_flow'])
-        ctx['served'] = (ok, why)
+        pr = ctx.get('probes', [])
+        ok = any(p[1] for p in pr)
+        ctx['served'] = (ok, 'never in %d probes: %s' % (len(pr), sorted(set(p[2] for p in pr))))
+        ctx['tables'] = {n.name: [(sa.state.name, str(sa.peer_addr), len(sa.child_sas)) for sa in n.ike_sas()]
+                         for n in w.nodes.values()}
     ctx['at_end'] = at_end
     w = execute(sc, setup, ctx)
     return w, ctx
@@ -194,8 +205,8 @@ def run(scenario):
             w2, ctx2 = _execute(scenario, False)
             s2 = ctx2.get('served')
             if s2 is not None and s2[0] and not w2.violations:
-                states = {n.name: [(sa.state.name, str(sa.peer_addr), len(sa.child_sas)) for sa in n.ike_sas()] for n in w.nodes.values()}
-                w.violation(PROP, 'legit_session_not_served', {'reason': served[1]},
+                states = ctx.get('tables')
+                w.violation(PROP, 'legit_session_not_served', {},
                             f'after the hostile input stopped, {QUIET}s of lossless network and repeated traffic did not give '
                             f'P a working CHILD_SA with D ({served[1]}); without the hostile input it does. tables: {states}')
             else:
